@@ -467,16 +467,16 @@ var canonReply = map[string][]string{
 		res(`<query xmlns='http://jabber.org/protocol/disco#info'><x xmlns='jabber:x:data' type='result'/></query>`)},
 	"disco-items": {res(`<query xmlns='http://jabber.org/protocol/disco#items'><item jid='people.shakespeare.lit' name='Directory'/><item jid='catalog.shakespeare.lit' node='books' name='Books'/></query>`),
 		res(`<query xmlns='http://jabber.org/protocol/disco#items'><item jid='people.shakespeare.lit' name='Directory'/>` + rsmSet + `</query>`)},
-	"disco-walk": {res(`<query xmlns='http://jabber.org/protocol/disco#items'><item jid='people.shakespeare.lit' name='Directory'/><item jid='example.net' node='books'/></query>`)},
+	"disco-walk":     {res(`<query xmlns='http://jabber.org/protocol/disco#items'><item jid='people.shakespeare.lit' name='Directory'/><item jid='example.net' node='books'/></query>`)},
 	"commands-fetch": {res(`<query xmlns='http://jabber.org/protocol/disco#items' node='http://jabber.org/protocol/commands'><item jid='responder@domain' node='list' name='List Service Configurations'/><item jid='responder@domain' node='config' name='Configure Service'/></query>`)},
 	"commands-exec": {res(`<command xmlns='http://jabber.org/protocol/commands' sessionid='list:20020923T213616Z-700' node='list' status='completed'><x xmlns='jabber:x:data' type='result'><title>Available Services</title></x></command>`),
 		res(`<command xmlns='http://jabber.org/protocol/commands' sessionid='config:1' node='config' status='executing'><actions execute='next'><next/></actions><note type='info'>n</note></command>`)},
-	"roster-fetch": {res(`<query xmlns='jabber:iq:roster' ver='ver11'><item jid='romeo@example.net' name='Romeo' subscription='both'><group>Friends</group></item><item jid='mercutio@example.com' name='Mercutio' subscription='from'/></query>`)},
-	"roster-set":   {res(``)},
-	"blocklist-fetch": {res(`<blocklist xmlns='urn:xmpp:blocking'><item jid='romeo@montague.net'/><item jid='iago@shakespeare.lit'/></blocklist>`)},
-	"blocklist-add":   {res(``)},
-	"pubsub-fetch": {res(`<pubsub xmlns='http://jabber.org/protocol/pubsub'><items node='princely_musings'><item id='368866411b877c30064a5f62b917cffe'><entry xmlns='http://www.w3.org/2005/Atom'><title>The Uses of This World</title></entry></item><item id='3300659945416e274474e469a1f0154c'><entry xmlns='http://www.w3.org/2005/Atom'><title>Ghostly Encounters</title></entry></item></items></pubsub>`)},
-	"bookmarks-fetch": {res(`<pubsub xmlns='http://jabber.org/protocol/pubsub'><items node='urn:xmpp:bookmarks:1'><item id='theplay@conference.shakespeare.lit'><conference xmlns='urn:xmpp:bookmarks:1' name='The Play' autojoin='true'><nick>JC</nick></conference></item><item id='orchard@conference.shakespeare.lit'><conference xmlns='urn:xmpp:bookmarks:1' name='The Orchard' autojoin='1'><nick>JC</nick><extensions><state xmlns='http://myclient.example/bookmark/state' minimized='true'/></extensions></conference></item></items></pubsub>`)},
+	"roster-fetch":     {res(`<query xmlns='jabber:iq:roster' ver='ver11'><item jid='romeo@example.net' name='Romeo' subscription='both'><group>Friends</group></item><item jid='mercutio@example.com' name='Mercutio' subscription='from'/></query>`)},
+	"roster-set":       {res(``)},
+	"blocklist-fetch":  {res(`<blocklist xmlns='urn:xmpp:blocking'><item jid='romeo@montague.net'/><item jid='iago@shakespeare.lit'/></blocklist>`)},
+	"blocklist-add":    {res(``)},
+	"pubsub-fetch":     {res(`<pubsub xmlns='http://jabber.org/protocol/pubsub'><items node='princely_musings'><item id='368866411b877c30064a5f62b917cffe'><entry xmlns='http://www.w3.org/2005/Atom'><title>The Uses of This World</title></entry></item><item id='3300659945416e274474e469a1f0154c'><entry xmlns='http://www.w3.org/2005/Atom'><title>Ghostly Encounters</title></entry></item></items></pubsub>`)},
+	"bookmarks-fetch":  {res(`<pubsub xmlns='http://jabber.org/protocol/pubsub'><items node='urn:xmpp:bookmarks:1'><item id='theplay@conference.shakespeare.lit'><conference xmlns='urn:xmpp:bookmarks:1' name='The Play' autojoin='true'><nick>JC</nick></conference></item><item id='orchard@conference.shakespeare.lit'><conference xmlns='urn:xmpp:bookmarks:1' name='The Orchard' autojoin='1'><nick>JC</nick><extensions><state xmlns='http://myclient.example/bookmark/state' minimized='true'/></extensions></conference></item></items></pubsub>`)},
 	"unmarshal-struct": {res(`<query xmlns='urn:example:q' a='1'><b>2</b></query>`)},
 	"iter-plain":       {res(`<query xmlns='urn:example:q'><a/><b>t</b><c><d/></c></query>`)},
 	"ibb-open":         {res(``)},
